@@ -2,12 +2,12 @@ SPECIFICATION FairSpec
 CONSTANTS
   Contents = {"A", "B"}
   MaxOps = 3
-  Kinds = {"write", "replace"}
-  Fates = {"deliver", "drop", "dup"}
+  Kinds = {"write"}
+  Fates = {"drop"}
   Rejects = {}
-  CbOps = "none"
-  Recheck = FALSE
-  Post = "none"
+  CbOps = "both"
+  Recheck = TRUE
+  Post = "forget"
   Record = "always"
   Export = FALSE
 INVARIANTS NoHazard
